@@ -1,2 +1,192 @@
-(** C16 — placeholder while the model is being built *)
-From PV Require Import Lib.Common.
+(** C16 — property theorems only: statement, [exact] of a lemma proved elsewhere, [Print Assumptions].
+    Models: Model/C16_Store.v (HDF5 store, h5py_File_write_dict, typed readers, to_hdf5/from_hdf5 driven by the field tables
+    of Gen/C16_Fields.v), Model/C16_Heap.v (copy / deepcopy), Model/C16_Codec.v (VCF import, data-frame codecs). *)
+From Coq Require Import String PrimFloat Permutation Sorted.
+From PV Require Import Lib.Common Lib.FloatK Lib.C16_Spec Model.C16_Store Model.C16_Heap Model.C16_Codec Gen.C16_Fields
+                       Proofs.C16_Utf8 Proofs.C16_Store Proofs.C16_Tables Proofs.C16_Heap Proofs.C16_Codec.
+Local Open Scope Z_scope.
+
+(** ** labels: every string of unicode scalar values survives the UTF-8 storage of HDF5 (non-ASCII labels included) *)
+Theorem C16_utf8_roundtrip : forall s : str, Forall scalar s -> exists b, utf8_enc s = Some b /\ utf8_dec b = Some s.
+Proof. exact utf8_roundtrip. Qed.
+Print Assumptions C16_utf8_roundtrip.
+
+(** ** HDF5: for every class without a dictionary-valued field (all matrices and the phenotyping protocol), every file
+    content [f], every group name [g], every well-typed object [o]: if the overwrite succeeds, the object read back has exactly
+    the attributes of [o] (passed through the class constructor) — whatever was in the file before *)
+Theorem C16_codec_roundtrip_hdf5 : forall (s : cls_spec), In s flat_classes ->
+  forall (o : obj) (nt : Z) (f f' : file) (g : option str),
+  wf_obj s o = true -> to_hdf5 true s f g o true = (f', None) -> from_hdf5 s nt f' g = construct s nt (proj s o).
+Proof. intros s Hs o nt f f' g Hwf. apply roundtrip_flat; [apply flat_spec_of; exact Hs | exact Hwf]. Qed.
+Print Assumptions C16_codec_roundtrip_hdf5.
+
+(** after any sequence of overwrites of one location the last object is read back (same classes) *)
+Theorem C16_read_after_writes_partial : forall (s : cls_spec), In s flat_classes ->
+  forall (os : list obj) (o : obj) (f f' : file) (g : option str) (nt : Z),
+  wf_obj s o = true -> write_all true s f g (os ++ [o]) = (f', None) -> from_hdf5 s nt f' g = construct s nt (proj s o).
+Proof. intros s Hs. apply read_after_writes_flat. apply flat_spec_of. exact Hs. Qed.
+Print Assumptions C16_read_after_writes_partial.
+
+(** the constructor returns complete data unchanged, so "read back" is the object itself *)
+Theorem C16_construct_identity : forall s nt data,
+  (plain_class s = true -> construct s nt data = inl data)
+  /\ (cname s = "GM"%string -> attr "ploidy" data <> None -> construct s nt data = inl data)
+  /\ (cname s = "GE"%string -> Forall (fun kv => snd kv <> None) data -> construct s nt data = inl data).
+Proof. intros s nt data. split; [apply construct_plain|]. split; [apply construct_GM | apply construct_GE]. Qed.
+Print Assumptions C16_construct_identity.
+
+(** typed values satisfy the hypothesis [wf_obj]: arrays of any dtype through the plain reader, int8 / int64 arrays, python
+    ints, and str labels / names of unicode scalar values come back identical *)
+Theorem C16_typed_values_survive :
+  (forall t sh d, reader_exact RNd (VArr t sh d) = true) /\ (forall sh d, reader_exact RNdInt8 (VArr TI8 sh d) = true)
+  /\ (forall sh d, reader_exact RNdInt (VArr TI64 sh d) = true) /\ (forall z, in_i64 z = true -> reader_exact RInt (VInt z) = true)
+  /\ (forall l, Forall (Forall scalar) l -> reader_exact RNdUtf8 (VStrs l) = true)
+  /\ (forall s0, Forall scalar s0 -> reader_exact RUtf8 (VStr s0) = true).
+Proof. repeat split; [apply exact_nd | apply exact_nd_int8 | apply exact_nd_int | apply exact_int | apply exact_strs | apply exact_str]. Qed.
+Print Assumptions C16_typed_values_survive.
+
+(** the behaviour before commit 5ae6bde7 (None fields skipped): overwriting a labelled genotype matrix with an unlabelled one
+    read the old labels back; the code as it stands reads the second object *)
+Theorem C16_read_after_writes_old_refuted :
+  exists f1 f2, to_hdf5 false spec_GM [] w_group w_rich true = (f1, None) /\ to_hdf5 false spec_GM f1 w_group w_poor true = (f2, None)
+    /\ exists o', from_hdf5 spec_GM 0 f2 w_group = inl o' /\ attr "taxa" o' = Some (OS (VStrs [[97]; [98]])) /\ attr "taxa" w_poor = None.
+Proof. exact stale_fields_old. Qed.
+Print Assumptions C16_read_after_writes_old_refuted.
+
+(** for classes with a dictionary-valued field (genomic-model hyper-parameters) the clause is false of the code as it stands:
+    nested dictionaries are never cleared *)
+Theorem C16_read_after_writes_refuted :
+  exists f1 f2, to_hdf5 true spec_ALGM [] (Some [109]) (w_model [([97], Some (VFloat 4609434218613702656))]) true = (f1, None)
+    /\ to_hdf5 true spec_ALGM f1 (Some [109]) (w_model []) true = (f2, None)
+    /\ exists o', from_hdf5 spec_ALGM 1 f2 (Some [109]) = inl o'
+                  /\ attr "hyperparams" o' = Some (OD [([97], Some (VArr TF64 [] [4609434218613702656]))]) /\ attr "hyperparams" (w_model []) = Some (OD []).
+Proof. exact stale_hyperparams. Qed.
+Print Assumptions C16_read_after_writes_refuted.
+
+(** and a str hyper-parameter is read back as bytes *)
+Theorem C16_codec_roundtrip_hyperparams_refuted :
+  exists f1, to_hdf5 true spec_ALGM [] (Some [109]) (w_model [([107], Some (VStr [114]))]) true = (f1, None)
+    /\ exists o', from_hdf5 spec_ALGM 1 f1 (Some [109]) = inl o' /\ attr "hyperparams" o' = Some (OD [([107], Some (VBytes [114]))]).
+Proof. exact lossy_hyperparams. Qed.
+Print Assumptions C16_codec_roundtrip_hyperparams_refuted.
+
+(** ** the tables extracted from the source on this run: written = read, every read reaches the object, group metadata is
+    persisted, copies cover constructor parameters and metadata, deep copies deep-copy (finite domain: the 14 classes) *)
+Theorem C16_tables_written_eq_read :
+  forallb written_eq_read all_specs = true /\ forallb required_unguarded all_specs = true
+  /\ forallb reads_reach_object all_specs = true /\ forallb meta_persisted persistable = true
+  /\ map cname persistable = ["DM"; "TM"; "VrM"; "GM"; "PGM"; "BV"; "CM"; "STT"; "VM"; "ALGM"; "ADLGM"; "GE"]%string.
+Proof. repeat split; [exact tables_written_eq_read | exact tables_required_unguarded | exact tables_reads_reach_object | exact tables_meta_persisted | exact persistable_names]. Qed.
+Print Assumptions C16_tables_written_eq_read.
+
+Theorem C16_tables_copied_superset :
+  forallb copied_superset all_specs = true /\ forallb (deep_is_deep shared_ok) all_specs = true
+  /\ forallb (shallow_copies shared_ok) all_specs = true /\ length all_specs = 14%nat.
+Proof. repeat split; [exact tables_copied_superset | exact tables_deep_is_deep | exact tables_shallow_copies]. Qed.
+Print Assumptions C16_tables_copied_superset.
+
+(** ** copies *)
+(** copy.copy and copy.deepcopy of an attribute value observe the value of the source *)
+Theorem C16_copy_equal : forall specs fuel deep h v h' v', closed h -> copy_hv specs fuel deep h v = Some (h', v') -> resolve1 h' v' = resolve1 h v.
+Proof. exact copy_hv_equal. Qed.
+Print Assumptions C16_copy_equal.
+
+(** __deepcopy__ of any class whose table has no shallow copy (nested classes deep-copy everything): the heap is only
+    extended, the new region refers only to itself, every deep-copied attribute points into it *)
+Theorem C16_deepcopy_allocates : forall specs s fuel h h' o o',
+  forallb strict_deep specs = true -> no_shallow (dp_ctor s ++ dp_post s) = true -> class_copy specs fuel true s h o = Some (h', o') ->
+  exists e, h' = h ++ e /\ closed_from (length h) h'
+            /\ Forall2 (field_rel (length h) o) (filter (fun c => negb (String.eqb (csrc c) "")) (dp_ctor s ++ dp_post s)) o'.
+Proof. intros. eapply deepcopy_allocates; eauto. Qed.
+Print Assumptions C16_deepcopy_allocates.
+
+(** whatever is reachable from a deep-copied attribute lies in the new region, after any mutations of that region *)
+Theorem C16_deepcopy_reach_fresh : forall specs s fuel h h' o o',
+  forallb strict_deep specs = true -> no_shallow (dp_ctor s ++ dp_post s) = true -> class_copy specs fuel true s h o = Some (h', o') ->
+  forall ms, Forall (mut_ok (length h)) ms -> forall v l, hv_ge (length h) v -> reach (fold_left apply_mut ms h') v l -> (length h <= l)%nat.
+Proof. intros. eapply deepcopy_reach_fresh; eauto. Qed.
+Print Assumptions C16_deepcopy_reach_fresh.
+
+(** any sequence of mutations of the new region leaves every attribute of the source unchanged *)
+Theorem C16_deepcopy_independent : forall specs s fuel h h' o o',
+  forallb strict_deep specs = true -> no_shallow (dp_ctor s ++ dp_post s) = true -> closed h -> class_copy specs fuel true s h o = Some (h', o') ->
+  forall ms, Forall (mut_ok (length h)) ms -> Forall (fun kv => hv_lt (length h) (snd kv)) o ->
+  forall a, resolve1 (fold_left apply_mut ms h') (hattr a o) = resolve1 h (hattr a o).
+Proof. intros. eapply deepcopy_independent; eauto. Qed.
+Print Assumptions C16_deepcopy_independent.
+
+(** the hypotheses hold for the tables of this run: the classes that occur nested deep-copy everything, no __deepcopy__
+    uses a shallow copy *)
+Theorem C16_deepcopy_tables : forallb strict_deep [spec_ALGM; spec_ADLGM] = true /\ forallb (fun s => no_shallow (dp_ctor s ++ dp_post s)) all_specs = true.
+Proof. split; vm_compute; reflexivity. Qed.
+Print Assumptions C16_deepcopy_tables.
+
+(** ** VCF import *)
+Theorem C16_vcf_import_exact : forall (phased : bool) (n : nat) (recs : list vrec),
+  let o := vcf_import phased n recs false in
+  vo_chr o = map vchrom recs /\ vo_pos o = map vpos recs
+  /\ vo_name o = map (fun r => match vid r with Some s => s | None => none_str end) recs
+  /\ vo_meta o = None
+  /\ (forall i j, (i < n)%nat -> (j < length recs)%nat ->
+        let g := nth i (vgt (nth j recs (mkV 0 0 None []))) (0, 0) in
+        if phased then nth j (nth i (nth 0 (vo_mat o) []) []) 0 = fst g /\ nth j (nth i (nth 1 (vo_mat o) []) []) 0 = snd g
+        else nth j (nth i (nth 0 (vo_mat o) []) []) 0 = fst g + snd g).
+Proof. exact vcf_import_exact. Qed.
+Print Assumptions C16_vcf_import_exact.
+
+Theorem C16_vcf_import_grouped : forall (phased : bool) (n : nat) (recs : list vrec),
+  let rs := isort vkey_leb recs in
+  Permutation rs recs /\ StronglySorted (fun a b => vkey_leb a b = true) rs
+  /\ vo_mat (vcf_import phased n recs true) = vo_mat (vcf_import phased n rs false)
+  /\ vo_chr (vcf_import phased n recs true) = map vchrom rs /\ vo_pos (vcf_import phased n recs true) = map vpos rs
+  /\ vo_name (vcf_import phased n recs true) = vo_name (vcf_import phased n rs false)
+  /\ vo_meta (vcf_import phased n recs true) = Some (grp_meta (map vchrom rs)).
+Proof. exact vcf_import_grouped. Qed.
+Print Assumptions C16_vcf_import_grouped.
+
+(** the group metadata tiles the chromosome array: expanding (name, length) gives it back, lengths are positive *)
+Theorem C16_group_runs : forall l i, flat_map (fun e => repeat (fst (fst e)) (Z.to_nat (snd e))) (runs l i) = l /\ Forall (fun e => 0 < snd e) (runs l i).
+Proof. exact runs_expand. Qed.
+Print Assumptions C16_group_runs.
+
+(** ** data-frame codecs *)
+Theorem C16_codec_roundtrip_gmap_morgans : forall (g : gmap) (auto_group : bool), g_stop g = None -> g_name g = None -> g_fn g = None ->
+  gmap_from_pandas false UM false false auto_group (gmap_to_pandas false UM g) = Some (gmap_construct auto_group g).
+Proof. exact gmap_roundtrip_M. Qed.
+Print Assumptions C16_codec_roundtrip_gmap_morgans.
+
+Theorem C16_codec_roundtrip_gmap_cM_refuted : exists x : float, PrimFloat.eqb (PrimFloat.mul centi (PrimFloat.mul hundred x)) x = false.
+Proof. exact cM_roundtrip_fails. Qed.
+Print Assumptions C16_codec_roundtrip_gmap_cM_refuted.
+(** finite domain: the 1025 positions k/256, k = 0..1024 *)
+Theorem C16_codec_roundtrip_gmap_cM_partial :
+  forallb (fun k => feqb (PrimFloat.mul centi (PrimFloat.mul hundred (grid256 k))) (grid256 k)) (seq 0 1025) = true.
+Proof. exact cM_roundtrip_grid. Qed.
+Print Assumptions C16_codec_roundtrip_gmap_cM_partial.
+
+Theorem C16_codec_roundtrip_bv_pandas_refuted :
+  exists m', bv_from_pandas false false (bv_to_pandas false w_bv) = Some m'
+             /\ fl_eqb (bv_loc m') (bv_loc w_bv) = false /\ fl_eqb (bv_scale m') (bv_scale w_bv) = false /\ fll_eqb (bv_mat m') (bv_mat w_bv) = true.
+Proof. exact bv_pandas_loses_location_scale. Qed.
+Print Assumptions C16_codec_roundtrip_bv_pandas_refuted.
+
+Theorem C16_codec_roundtrip_vmat_pandas_refuted :
+  exists m', vm_from_pandas false (vm_to_pandas false w_vm) = Some m'
+             /\ vm_taxa m' = Some [[97]; [98]] /\ vm_mat m' = [[[3%float]; [2%float]]; [[1%float]; [0%float]]].
+Proof. exact vm_pandas_sorts_labels. Qed.
+Print Assumptions C16_codec_roundtrip_vmat_pandas_refuted.
+
+Theorem C16_codec_roundtrip_absent_labels_refuted : exists m', cm_from_pandas false (cm_to_pandas false w_cm) = Some m' /\ cm_taxa m' = Some [[48]].
+Proof. exact cm_pandas_invents_taxa. Qed.
+Print Assumptions C16_codec_roundtrip_absent_labels_refuted.
+
+(** non-vacuity: concrete objects meet the hypotheses; the write succeeds; a variance matrix with sorted labels does round-trip *)
+Example C16_hyps_satisfiable :
+  wf_obj spec_GM w_rich = true /\ wf_obj spec_GM w_poor = true /\ In spec_GM flat_classes
+  /\ (exists f2, write_all true spec_GM [] w_group [w_rich; w_poor] = (f2, None))
+  /\ opt_eqb vm_eqb (vm_from_pandas true (vm_to_pandas true w_vm_sorted)) (Some w_vm_sorted) = true
+  /\ (exists h' o', class_copy [spec_ALGM] 4 true spec_BV [CArr (VArr TF64 [1; 1] [0])] [("mat"%string, HRef 0)] = Some (h', o')).
+Proof.
+  destruct w_objs_wf as [A [B C]]. split; [exact A|]. split; [exact B|]. split; [exact C|].
+  split; [eexists; vm_compute; reflexivity|]. split; [exact vm_pandas_sorted_ok|]. eexists. eexists. vm_compute. reflexivity.
+Qed.
